@@ -435,6 +435,8 @@ def main():
             recs = correspondence(ctx, mod, streams_spec)
         except Exception as e:  # driver failure is a broken tie, not a pass
             proof_problems.append("correspondence run failed: %r" % (e,))
+    if hasattr(mod, "postprocess"):
+        mod.postprocess(ctx, recs)
     ok, mfail, sfail, unmod, crash = classify(recs)
 
     # ---- 5. decide ---------------------------------------------------------------------------
